@@ -2,11 +2,12 @@
    input : [0; online; ignore_warnings; has_size; nbytes; nc; fs_m; fs_e; has_fts; fts_m; fts_e]
                                                                                  flat binary (Reader / OnlineReader);
            has_size / has_fts: the meta file has a fileSizeBytes / fileTimeSecs entry
+           (has_size no longer influences anything since 381463f; kept in the encoding, ignored)
            [1; ignore_warnings; chns; chnc; nc; fs_m; fs_e; has_fts; fts_m; fts_e]   mtscomp branch (.ch announces chns x chnc)
            floats are passed exactly as m * 2^e
    output: [0; ns; nc; warned] ++ enc(meta fileTimeSecs afterwards) ++ enc(rl)    opened
            (warned = the mismatch warning was logged = fileTimeSecs rewritten and not ignore_warnings)
-           [1] memmap ValueError   [2] int() of inf/nan   [3] TypeError (no fileTimeSecs)   [4] KeyError (warning)
+           [1] memmap ValueError   [2] int() of inf/nan   [3] TypeError (no fileTimeSecs)
    enc(float) = [class; sign; mantissa; exponent]  (class 0 zero, 1 inf, 2 nan, 3 finite; canonical m, e;
                  class 4 = key absent, for the meta entry only) *)
 From Coq Require Import ZArith List Bool.
@@ -33,7 +34,6 @@ Definition enc_outcome (iw : bool) (fs : b64) (o : outcome) : list Z :=
   | MmapError => [1]
   | IntError => [2]
   | TypeErr => [3]
-  | KeyErr => [4]
   end.
 
 Definition dec_fts (has m e : Z) : option b64 :=
@@ -43,8 +43,7 @@ Definition run (inp : list Z) : list Z :=
   match inp with
   | [0; online; iw; hsz; nbytes; nc; fsm; fse; has; ftm; fte] =>
       let fs := of_me fsm fse in
-      let wok := (iw =? 1) || ((hsz =? 1) && (has =? 1)) in
-      enc_outcome (iw =? 1) fs (open_bin (online =? 1) wok nbytes nc (dec_fts has ftm fte) fs)
+      enc_outcome (iw =? 1) fs (open_bin (online =? 1) nbytes nc (dec_fts has ftm fte) fs)
   | [1; iw; chns; chnc; nc; fsm; fse; has; ftm; fte] =>
       let fs := of_me fsm fse in
       enc_outcome (iw =? 1) fs (open_cbin chns chnc nc (dec_fts has ftm fte) fs)
